@@ -34,7 +34,7 @@ ASSUMPTIONS = ['timer queue contract (C10): actions run once, at their rounded d
 def gen_script(rng, tier):
     if rng.random() < 0.35:
         import e2e
-        sc = e2e.gen_script(rng, tier, rng.choice(['edge', 'late', 'slowpeer'] + [None] * 5))
+        sc = e2e.gen_script(rng, tier, rng.choice(['edge', 'late', 'slowpeer', 'lastleave'] + [None] * 5))
         sc['kind'] = 'e2e'
         return sc
     steps = []
